@@ -14,6 +14,7 @@ PARENT = Ptr('arg:parent', ())
 C = Ptr('arg:c', ())
 NW = Ptr('arg:nw', ())
 W = Ptr('arg:w', ())
+DELTA = Ptr('tok:delta', ())          # the delta argument of nsync_counter_add as an opaque integer token
 
 def table(mod, gname):
     g = mod.globals.get(gname)
@@ -51,7 +52,7 @@ def analyse(ctx):
         add('note %s (%s)' % (role, fn), fn, [N, NW], [N, NW])
     add('nsync_counter_new', 'nsync_counter_new', [TOP], [])
     add('nsync_counter_free', 'nsync_counter_free', [C], [C])
-    add('nsync_counter_add', 'nsync_counter_add', [C, TOP], [C])
+    add('nsync_counter_add', 'nsync_counter_add', [C, DELTA], [C])
     add('nsync_counter_value', 'nsync_counter_value', [C], [C])
     ct = table(mod, 'nsync_counter_waitable_funcs')
     for role, fn in zip(('ready_time', 'enqueue', 'dequeue'), ct):
@@ -60,7 +61,8 @@ def analyse(ctx):
     add('nsync_sem_wait_with_cancel_', 'nsync_sem_wait_with_cancel_', [W, TOP, TOP, NOTE], [W, NOTE])
     runs = []
     for label, fn, args, nn, ghost in E:
-        eng.track_writes = label.startswith(('nsync_note_new', 'nsync_counter_new'))      # C19.R3 (constructors only: keeps other state spaces unchanged)
+        eng.track_writes = label.startswith(('nsync_note_new', 'nsync_counter_new'))
+        eng.value_token_fields = ('nsync_counter_s_.value',) if label == 'nsync_counter_add' else ()      # C19.R3 (constructors only: keeps other state spaces unchanged)
         exits = eng.run(fn, args, nn=nn, ghost=ghost, label=label)
         runs.append((label, fn, exits))
     _CACHE[key] = (eng, runs)
